@@ -16,8 +16,9 @@ TRUSTED_BASE = [
     "correspondence harness harness/props/c14.py + h3common.py + harness/vlib/corr.py (decides what 'agree' means)",
     "pylsqpack (QPACK) and validate_*_headers are oracles: their answers are recorded per call on the real run "
     "(keyed by their arguments) and replayed to the model",
-    "modelled, not verified: aioquic/h3/connection.py receive path as Gallina functions; logging, the sending half "
-    "and the transport are outside the model (the round trip is checked on the implementation only)",
+    "modelled, not verified: aioquic/h3/connection.py receive path (model/H3Parse.v) and sending API (model/H3Send.v, "
+    "tied by the h3send correspondence) as Gallina functions; logging and the transport are outside the models (the "
+    "two-endpoint exchange is additionally checked on the implementation)",
     "model deviation: stream.frame_type is not written when only the first varint of a frame header is available "
     "(unobservable, see docs/C14.md)",
 ]
@@ -35,6 +36,11 @@ ASSUMPTIONS = [
     "frame is the first thing of its delivery on a stream that is new or between two frames; one blocked stream, one "
     "encoder-stream delivery; the decoder is deterministic in its input history: resume_header after the encoder data "
     "arrived returns what feed_header returns once the data is known (o_resume = o_dec), and that is not StreamBlocked",
+    "h3_roundtrip: decode(encode h) = h for the QPACK pair fed in order (o_dec O sid (blk h) = DHeaders h), the header "
+    "lists are valid for the receiving role, a content-length header states the body length, sizes below 2^62; sender: a "
+    "stream nothing was sent on yet whose receiving side has not ended (model/H3Send.v scope)",
+    "interleaving_independent_streams / interleaving_projection: bidirectional streams only, one oracle for the whole "
+    "schedule (no encoder-stream delivery inside it), connection not closed, no stream ended locally (nothing is popped)",
 ]
 
 
@@ -327,6 +333,141 @@ def roundtrip(ctx, n):
     return stats
 
 
+# ------------------------------------------------------------------------------------------ sending API (model tie)
+SEND_POOL = [hc.REQ, hc.RESP, [(b":status", b"200"), (b"content-length", b"3")], [(b"x-trailer", b"1")],
+             [(b":method", b"POST"), (b":scheme", b"https"), (b":authority", b"a"), (b":path", b"/u"), (b"x-custom", b"v" * 40)], []]
+SEND_EXN = {"FrameUnexpected": 1, "NoAvailablePushIDError": 2, "InvalidStreamTypeError": 3, "AssertionError": 4}
+
+
+def send_run(case):
+    """The real H3Connection's sending API over the stub transport.  Per call: the send_stream_data calls it made
+    (stream id, data, end_stream), its return value, or the exception class; plus what Encoder.encode returned."""
+    h, q = hc.new_h3(bool(case["client"]))
+    if not case["client"]:
+        h._max_push_id = case.get("max_push")
+    q.sent.clear()
+    enc_calls = []
+    real_encode = h._encoder.encode
+
+    class Enc:
+        def __getattr__(self, name):
+            return getattr(h_encoder, name)
+
+        def encode(self, stream_id, headers):
+            r = real_encode(stream_id, headers)
+            enc_calls.append(r)
+            return r
+    h_encoder = h._encoder
+    h._encoder = Enc()
+    res = []
+    for op in case["ops"]:
+        enc_calls.clear()
+        q.sent.clear()
+        ret, exn = None, None
+        try:
+            if op[0] == "h":
+                h.send_headers(op[1], list(SEND_POOL[op[2]]), end_stream=bool(op[3]))
+            elif op[0] == "d":
+                h.send_data(op[1], hc.H(op[2]), end_stream=bool(op[3]))
+            else:
+                ret = h.send_push_promise(op[1], list(SEND_POOL[op[2]]))
+        except Exception as e:  # noqa
+            exn = e
+        res.append({"writes": list(q.sent), "ret": ret, "exn": exn,
+                    "enc": tuple(enc_calls[0]) if enc_calls else (b"", b"")})
+    return res
+
+
+def send_impl(case):
+    out = []
+    for r in send_run(case):
+        if r["exn"] is not None:
+            out += [1, SEND_EXN.get(type(r["exn"]).__name__, 9)]
+        else:
+            out += [0, len(r["writes"])]
+            for sid, d, f in r["writes"]:
+                out += [sid, int(f), len(d)] + list(d)
+            out += [0] if r["ret"] is None else [1, r["ret"]]
+    return out
+
+
+def send_encode(case):
+    t = [int(case["client"])] + ([0] if case.get("max_push") is None or case["client"] else [1, case["max_push"]])
+    if case["client"]:
+        t = [1, 1, 8]          # a client starts with _max_push_id = 8 (irrelevant: it cannot send push promises)
+    for op, r in zip(case["ops"], send_run(case)):
+        e, b = r["enc"]
+        if op[0] == "h":
+            t += [0, op[1], int(op[3]), len(e)] + list(e) + [len(b)] + list(b)
+        elif op[0] == "d":
+            d = hc.H(op[2])
+            t += [1, op[1], int(op[3]), len(d)] + list(d)
+        else:
+            t += [2, op[1], len(e)] + list(e) + [len(b)] + list(b)
+    return t
+
+
+def send_oracle(case):
+    """On the implementation only: a call either raises one of the documented exception classes and writes nothing, or
+    what it wrote on its stream is exactly one well-formed frame of the right type (independent frame scan), with the
+    end_stream flag it was given."""
+    want = {"h": 1, "d": 0, "p": 5}
+    for op, r in zip(case["ops"], send_run(case)):
+        if r["exn"] is not None:
+            if type(r["exn"]).__name__ not in SEND_EXN:
+                return ("sending API raised %s" % type(r["exn"]).__name__, {"defect": "send-exception"})
+            if r["writes"]:
+                return ("a call that raised had already written to the transport", {"defect": "send-partial-write"})
+            continue
+        mine = [(d, f) for sid, d, f in r["writes"] if sid == op[1]]
+        if len(mine) != 1:
+            return ("%d writes on the stream for one call" % len(mine), {"defect": "send-writes"})
+        types, cut = hc.scan_request_stream(mine[0][0])
+        if types != [want[op[0]]] or cut is not None:
+            return ("call %r wrote frames %r (cut %r)" % (op[0], types, cut), {"defect": "send-frame"})
+        if op[0] != "p" and bool(mine[0][1]) != bool(op[3]):
+            return ("end_stream flag lost", {"defect": "send-fin"})
+    return None
+
+
+def send_gen(rng, n):
+    out = []
+    for _ in range(n):
+        client = rng.random() < 0.5
+        sids = [0, 4, 8] if rng.random() < 0.8 else [0, 4, 1, 2, 15]
+        ops = []
+        for _ in range(rng.choice([1, 2, 3, 4, 6, 9])):
+            k = rng.choice(["h", "h", "d", "d", "d", "p"])
+            sid = rng.choice(sids)
+            if k == "h":
+                ops.append(["h", sid, rng.randrange(len(SEND_POOL)), int(rng.random() < 0.3)])
+            elif k == "d":
+                ops.append(["d", sid, bytes(rng.getrandbits(8) for _ in range(rng.choice([0, 0, 1, 3, 70, 300]))).hex(),
+                            int(rng.random() < 0.3)])
+            else:
+                ops.append(["p", sid, 0])
+        # mostly well-formed messages: headers, body pieces, optional trailers
+        if rng.random() < 0.5:
+            sid = rng.choice([0, 4])
+            body = [bytes(rng.getrandbits(8) for _ in range(rng.choice([0, 1, 5, 64, 200]))).hex()
+                    for _ in range(rng.choice([0, 1, 2, 3]))]
+            tr = rng.random() < 0.4
+            ops = [["h", sid, rng.randrange(3), int(not body and not tr)]]
+            ops += [["d", sid, b, int(i == len(body) - 1 and not tr)] for i, b in enumerate(body)]
+            if tr:
+                ops.append(["h", sid, 3, 1])
+            if not client and rng.random() < 0.5:
+                ops.insert(rng.randrange(len(ops) + 1), ["p", sid, 0])
+        out.append({"client": client, "max_push": rng.choice([None, 0, 1, 2, 8]), "ops": ops})
+    return out
+
+
+def send_suite(ctx):
+    return corr.Suite(ctx, "h3send", "exec_h3send", send_encode, send_impl, send_oracle,
+                      ops=lambda c: c["ops"], rebuild=lambda c, ops: dict(c, ops=ops),
+                      nontrivial=lambda c, out: len(out) > 4, opname=lambda o: o[0])
+
+
 # ------------------------------------------------------------------------------------------ close-code witnesses
 def close_code_witnesses():
     """Replays, on the implementation, the two theorems saying that the close CODE (never an event) can depend on the
@@ -372,8 +513,11 @@ def run(ctx):
         cases.append(hc.gen_connection_case(rng, malformed=0.15 if i % 3 == 0 else 0.0, blocked=(i % 2 == 0))[0])
     s.run(cases, "random")
     rt = roundtrip(ctx, ctx.n(400, 6000))
+    snd = send_suite(ctx)
+    snd.run(corr.load_corpus("C14", snd.name), "corpus")
+    snd.run(send_gen(rng, ctx.n(2500, 30000)), "random")
     cov = corr.merge_coverage(
-        [s],
+        [s, snd],
         "exhaustive: all 2^(n-1) splittings (FIN on the last chunk, and as a chunk of its own) of %d-byte-or-shorter "
         "request / response / push / WebTransport / unknown streams; random: whole connections from the grammar "
         "(real pylsqpack encoder: static, literal, dynamic entries) randomly split and interleaved; distinct = distinct "
@@ -396,6 +540,10 @@ def replay(ctx, rep):
         return res
     if isinstance(case, dict) and case.get("suite") == "roundtrip":
         return {"roundtrip": "re-run ./check C14 with VERIF_SEED=%s" % case.get("seed")}
+    if isinstance(case, dict) and "max_push" in case:
+        snd = send_suite(ctx)
+        d, e, g = snd.disagree(case)
+        return {"disagree": d, "impl": e, "model": g, "oracle": send_oracle(case)}
     s = suite(ctx)
     d, e, g = s.disagree(case)
     return {"disagree": d, "impl": e, "model": g, "oracle": chunk_oracle(case)}
